@@ -50,7 +50,7 @@ func init() {
 				Min:  map[string]int64{"triples": 1 << 24, "t0": 1 << 16, "t255": 1 << 16, "premul_operands": 1 << 20}},
 			{Name: "palettes", N: tier(625*3+20000, 625*3+300000), Run: c09Palette,
 				Rule: "suggested palettes through Encoder.Reset and Decode: every colour of the 5^4 multiple-of-0x40 grid (premultiplied) at index 0, 1 and 63, then PRNG palettes mixing 1/2/3/4-byte encodable colours with 1..64 explicit entries and trailing blacks",
-				Min:  map[string]int64{"palettes": 10000, "format_1": 100, "format_2": 100, "format_3": 100, "format_4": 100}},
+				Min:  map[string]int64{"palettes": 10000, "format_1": 100, "format_2": 100, "format_3": 100, "format_4": 100, "palette_after_viewbox_chunk": 5000}},
 		},
 	})
 }
@@ -401,8 +401,14 @@ func c09Palette(c *run.Ctx, idx uint64) {
 	var e encode.Encoder
 	var b []byte
 	var err error
+	vb := ivg.DefaultViewBox
+	if idx%2 == 1 {
+		// the palette chunk follows a viewBox chunk
+		vb = ivg.ViewBox{MinX: 0, MinY: 0, MaxX: 48, MaxY: float32(24 + idx%100)}
+		c.Count("palette_after_viewbox_chunk", 1)
+	}
 	if !c.Guard("encode", func() interface{} { return fmt.Sprint(pal) }, func() {
-		e.Reset(ivg.DefaultViewBox, pal)
+		e.Reset(vb, pal)
 		var bb []byte
 		bb, err = e.Bytes()
 		b = append([]byte(nil), bb...)
@@ -421,6 +427,8 @@ func c09Palette(c *run.Ctx, idx uint64) {
 	}
 	if len(b) > 7 && b[4] == 0x02 {
 		c.Count(fmt.Sprintf("format_%d", int(b[7]>>6)+1), 1)
+	} else if m, me := ref.ParseMeta(b); me == nil && len(m.MIDs) == 2 && m.End > 0 {
+		c.Count("format_with_viewbox", 1)
 	}
 	ops, derr := decodeRec(b)
 	if derr != nil || len(ops) != 1 || ops[0].K != rec.KReset {
